@@ -910,7 +910,13 @@ fn check_relations(problem: &api::Problem, solution: &sol::Solution, v: &mut Ver
                 v.add(Prop::Feasibility, "relation-vehicle", format!("{ctx}: job {id} is served by tour(s) {served:?}, the relation names tour {own:?}"));
             }
             if served.is_empty() {
-                v.add(Prop::Feasibility, "relation-job-unassigned", format!("{ctx}: job {id} is not served at all"));
+                // `any` only reserves the job for the vehicle (it may be ruined and stay unassigned when it does not fit again);
+                // sequence / strict jobs are never taken out of their tour
+                if matches!(rel.type_field, api::RelationType::Any) {
+                    v.unspec("relation-any-job-unassigned");
+                } else {
+                    v.add(Prop::Feasibility, "relation-job-unassigned", format!("{ctx}: job {id} is not served at all"));
+                }
             }
         }
         let Some(acts) = own.and_then(|ti| flats[ti].as_ref()) else { continue };
